@@ -1,4 +1,8 @@
 fn main() {
+    let args: Vec<String> = std::env::args().collect();
+    if let Some(i) = args.iter().position(|a| a == "--reference-of") {
+        vshuttle::scenario::reference_main(&args[i + 1]);
+    }
     static E: vshuttle::scenario::C20 = vshuttle::scenario::C20;
     vshuttle::sup::main_with(&E)
 }
